@@ -33,8 +33,8 @@ type cached struct {
 // call boundary (positions are taken from that history's own calibration trace)
 func buildPlan(seed uint64, n int, tier string, search bool) []wo.Input {
 	r := vhlib.NewRand(seed)
-	hists := wo.FixedHists()
-	nh := 3
+	hists := append(wo.FixedHists(), wo.BulkHists()...)
+	nh := 4
 	if tier == "thorough" {
 		nh = 40
 	}
@@ -72,8 +72,10 @@ func buildPlan(seed uint64, n int, tier string, search bool) []wo.Input {
 			in := wo.Input{Kind: "crash", Hist: h, K: k}
 			if k%3 == i%3 || search {
 				// recovery: a further write-out to the day of the last one and one to a new day
+				// the first one carries repetitive multi-flow data: its columns are stored compressed, so that the
+				// writer depends on the position at which it opened the column files (behind crash leftovers or not)
 				in.Hist2 = []wo.WriteOut{
-					{ID: len(h), Iface: last.Iface, TS: last.TS + 300, NV4: 1 + hr.Intn(2), NV6: hr.Intn(2), Drops: 1},
+					{ID: len(h), Iface: last.Iface, TS: last.TS + 300, NV4: 1 + hr.Intn(2), NV6: hr.Intn(2), Drops: 1, Bulk: 40 + hr.Intn(10)},
 					{ID: len(h) + 1, Iface: last.Iface, TS: last.TS + 86400 + 600, NV4: 1, NV6: 0, Drops: 0},
 				}
 			}
@@ -87,6 +89,23 @@ func buildPlan(seed uint64, n int, tier string, search bool) []wo.Input {
 	}
 	if len(p) > n {
 		p = p[:n]
+	}
+	// the generated data must really exercise compressed column blocks
+	probe, err := wo.Measure(env.Work+"/c04/probe", []wo.WriteOut{{ID: 0, Iface: "eth0", TS: 1702000200, NV4: 1, Bulk: 40}})
+	if err != nil {
+		fatal(err)
+	}
+	if !probe[0].Compressed() {
+		fatal(fmt.Errorf("generator: the bulk write-out is not stored compressed (lens %v raw %v)", probe[0].Lens, probe[0].Raw))
+	}
+	nrec := 0
+	for _, in := range p {
+		if len(in.Hist2) > 0 {
+			nrec++
+		}
+	}
+	if len(p) > 20 && nrec*5 < len(p) {
+		fatal(fmt.Errorf("generator: only %d of %d cases have a compressed recovery write-out", nrec, len(p)))
 	}
 	return p
 }
